@@ -1,77 +1,153 @@
 //! The parsers under test.  Each entry: seeds (valid encodings) + parse closure.
+//!
+//! Layout: this file holds the shared helpers and the aggregator `all(tier)`; the entries live in the
+//! sibling files `p_entropy.rs`, `p_compression.rs`, `p_stores.rs`, `p_io.rs`, `p_text.rs`.
+//!
+//! Conventions
+//! * "selector byte": where a decoder needs a model (tree / frequency table / trained compressor) that
+//!   is NOT part of the byte stream, the first input byte selects one of the valid models
+//!   (`models()[b[0] % len]`) and the rest is the payload handed to the decoder.  Mutating the selector
+//!   only picks another *valid* model (decoding a stream with a mismatching model is a legitimate hostile
+//!   input as well).  Parsers whose model IS parsed from bytes carry model and payload in one seed.
+//! * file-based loaders write the mutant into `/dev/shm/zverif/c15-<pid>/` (created per case, removed
+//!   after the case by a drop guard, also on unwinding).
+use std::path::{Path, PathBuf};
+
 use super::{payloads, seed, P};
-use zverif::mutate::Seed;
 use zverif::Tier;
 
-use zipora::entropy::huffman::{HuffmanDecoder, HuffmanEncoder, HuffmanTree};
-use zipora::io::var_int::VarInt;
+#[path = "p_compression.rs"]
+mod p_compression;
+#[path = "p_entropy.rs"]
+mod p_entropy;
+#[path = "p_io.rs"]
+mod p_io;
+#[path = "p_stores.rs"]
+mod p_stores;
+#[path = "p_text.rs"]
+mod p_text;
 
-fn varint_seeds(_t: Tier) -> Vec<Seed> {
-    [0u64, 1, 127, 128, 16383, 16384, u32::MAX as u64, u64::MAX >> 1, u64::MAX]
-        .iter()
-        .map(|v| seed(&format!("varint({v})"), VarInt::encode(*v), 0))
-        .collect()
+/// Payloads usable as training data / models (non-empty), in a stable order (the selector byte indexes
+/// this list; do not reorder).
+pub fn models() -> Vec<(&'static str, Vec<u8>)> {
+    payloads().into_iter().filter(|(_, p)| !p.is_empty()).collect()
 }
 
-fn varint_multi_seeds(_t: Tier) -> Vec<Seed> {
-    vec![seed("multi[0,1,300,MAX]", VarInt::encode_multiple([0u64, 1, 300, u64::MAX]), 0)]
+/// Payloads used for seeds in this tier (quick: without the 256-byte ramp unless a parser asks for it).
+pub fn tier_payloads(tier: Tier) -> Vec<(&'static str, Vec<u8>)> {
+    match tier {
+        Tier::Quick => payloads().into_iter().filter(|(l, _)| *l != "ramp" && *l != "zeros").collect(),
+        Tier::Thorough => payloads(),
+    }
 }
 
-fn hex_seeds(_t: Tier) -> Vec<Seed> {
-    vec![seed("hex(00ff10)", b"00ff10".to_vec(), 0), seed("hex(DEADbeef)", b"DEADbeef".to_vec(), 0)]
+/// `(selector, label, payload)` for every model.
+pub fn selected_models() -> Vec<(u8, &'static str, Vec<u8>)> {
+    models().into_iter().enumerate().map(|(i, (l, p))| (i as u8, l, p)).collect()
 }
 
-fn huff_tree_seeds(_t: Tier) -> Vec<Seed> {
+pub fn with_sel(sel: u8, enc: &[u8]) -> Vec<u8> {
+    let mut v = Vec::with_capacity(enc.len() + 1);
+    v.push(sel);
+    v.extend_from_slice(enc);
+    v
+}
+
+/// Split `[selector][rest]`; the selector is reduced modulo the number of models.
+pub fn split_sel(b: &[u8]) -> Option<(usize, &[u8])> {
+    let (&s, rest) = b.split_first()?;
+    Some((s as usize % models().len(), rest))
+}
+
+/// `[u16 le model_len][model][payload]`
+pub fn with_model(model: &[u8], enc: &[u8]) -> Option<Vec<u8>> {
+    if model.len() > u16::MAX as usize {
+        return None;
+    }
+    let mut v = (model.len() as u16).to_le_bytes().to_vec();
+    v.extend_from_slice(model);
+    v.extend_from_slice(enc);
+    Some(v)
+}
+
+pub fn split_model(b: &[u8]) -> Option<(&[u8], &[u8])> {
+    if b.len() < 2 {
+        return None;
+    }
+    let ml = u16::from_le_bytes([b[0], b[1]]) as usize;
+    if b.len() < 2 + ml {
+        return None;
+    }
+    Some((&b[2..2 + ml], &b[2 + ml..]))
+}
+
+// ------------------------------------------------------------------------------------------------
+// scratch files for path-based loaders
+
+pub struct Scratch {
+    pub dir: PathBuf,
+}
+
+impl Scratch {
+    /// A fresh, empty directory unique to this process (pid taken at call time: we run in a forked child).
+    pub fn new() -> Scratch {
+        let dir = PathBuf::from(format!("/dev/shm/zverif/c15-{}", std::process::id()));
+        let _ = std::fs::remove_dir_all(&dir);
+        std::fs::create_dir_all(&dir).expect("create c15 scratch dir");
+        Scratch { dir }
+    }
+    pub fn file(&self, name: &str, bytes: &[u8]) -> PathBuf {
+        let p = self.dir.join(name);
+        std::fs::write(&p, bytes).expect("write c15 scratch file");
+        p
+    }
+}
+
+impl Drop for Scratch {
+    fn drop(&mut self) {
+        let _ = std::fs::remove_dir_all(&self.dir);
+    }
+}
+
+/// Write `bytes` to a scratch file, run `f(path)`, remove file and directory (also when `f` panics).
+pub fn with_file<R>(bytes: &[u8], f: impl FnOnce(&Path) -> R) -> R {
+    let s = Scratch::new();
+    let p = s.file("case.bin", bytes);
+    f(&p)
+}
+
+/// Produce bytes by letting an encoder write to a scratch path.
+pub fn bytes_via_file(f: impl FnOnce(&Path) -> bool) -> Option<Vec<u8>> {
+    let s = Scratch::new();
+    let p = s.dir.join("seed.bin");
+    if !f(&p) {
+        return None;
+    }
+    std::fs::read(&p).ok()
+}
+
+// ------------------------------------------------------------------------------------------------
+
+pub fn all(tier: Tier) -> Vec<P> {
     let mut v = Vec::new();
-    for (label, p) in payloads() {
-        if let Ok(enc) = HuffmanEncoder::new(&p) {
-            v.push(seed(&format!("tree({label})"), enc.tree().serialize(), 0));
-        }
+    v.extend(p_io::all(tier));
+    v.extend(p_text::all(tier));
+    v.extend(p_entropy::all(tier));
+    v.extend(p_compression::all(tier));
+    v.extend(p_stores::all(tier));
+    // subject names are identities: they must be unique
+    let mut names: Vec<&str> = v.iter().map(|p| p.name).collect();
+    names.sort_unstable();
+    for w in names.windows(2) {
+        assert!(w[0] != w[1], "duplicate C15 parser name {}", w[0]);
     }
     v
 }
 
-fn huff_decode_seeds(_t: Tier) -> Vec<Seed> {
-    // layout of a seed: [u16 tree_len][tree bytes][encoded payload]; the parser rebuilds the decoder from the tree
-    let mut v = Vec::new();
-    for (label, p) in payloads() {
-        if let Ok(enc) = HuffmanEncoder::new(&p) {
-            if let Ok(bits) = enc.encode(&p) {
-                let tree = enc.tree().serialize();
-                let mut s = (tree.len() as u16).to_le_bytes().to_vec();
-                s.extend_from_slice(&tree);
-                s.extend_from_slice(&bits);
-                v.push(seed(&format!("huff({label})"), s, p.len()));
-            }
-        }
-    }
-    v
-}
+#[allow(dead_code)]
+pub fn keep(_: &dyn Fn() -> Vec<zverif::mutate::Seed>) {}
 
-pub fn all(_tier: Tier) -> Vec<P> {
-    vec![
-        P { name: "VarInt::decode", seeds: varint_seeds, parse: |b, _| VarInt::decode(b).is_ok(), len_arg: false, small: true },
-        P { name: "VarInt::decode_multiple", seeds: varint_multi_seeds, parse: |b, _| VarInt::decode_multiple(b).is_ok(), len_arg: false, small: true },
-        P { name: "hex_decode_bytes", seeds: hex_seeds, parse: |b, _| zipora::string::hex_decode_bytes(b).is_ok(), len_arg: false, small: true },
-        P { name: "HuffmanTree::deserialize", seeds: huff_tree_seeds, parse: |b, _| HuffmanTree::deserialize(b).is_ok(), len_arg: false, small: true },
-        P {
-            name: "HuffmanTree::deserialize + HuffmanDecoder::decode",
-            seeds: huff_decode_seeds,
-            parse: |b, n| {
-                if b.len() < 2 {
-                    return false;
-                }
-                let tl = u16::from_le_bytes([b[0], b[1]]) as usize;
-                if b.len() < 2 + tl {
-                    return false;
-                }
-                match HuffmanTree::deserialize(&b[2..2 + tl]) {
-                    Ok(tree) => HuffmanDecoder::new(tree).decode(&b[2 + tl..], n).is_ok(),
-                    Err(_) => false,
-                }
-            },
-            len_arg: true,
-            small: false,
-        },
-    ]
+#[allow(dead_code)]
+pub fn mk(label: &str, bytes: Vec<u8>, n: usize) -> zverif::mutate::Seed {
+    seed(label, bytes, n)
 }
